@@ -55,3 +55,12 @@ proof fn axiom_clone_u8()
     ensures forall|a: u8, b: u8| call_ensures(u8::clone, (&a,), b) ==> a == b,
 {
 }
+
+// Vec::drain(..) as used by handle_data: the iterator type is opaque; draining the full range leaves the vector empty
+#[verifier::reject_recursive_types(A)]
+#[verifier::reject_recursive_types(T)]
+#[verifier::external_type_specification]
+#[verifier::external_body]
+pub struct ExDrain<'a, T: 'a, A: Allocator>(alloc::vec::Drain<'a, T, A>);
+
+pub assume_specification<T, A: Allocator, R: core::ops::RangeBounds<usize>>[ Vec::<T, A>::drain ](v: &mut Vec<T, A>, r: R) -> alloc::vec::Drain<'_, T, A>;
